@@ -178,6 +178,9 @@ func newEnv(o *obs, reply bool) *env {
 	cfg.SendResultsSize = 8
 	cfg.MaxOutgoingMessageLength = 1024
 	cfg.MaxIncomingMessageLength = 1024
+	// the outgoing target and the first incoming peer are "default peers": their bookkeeping (defaultOutgoingConnections, the
+	// default-peer branches of Connect/Disconnect) only runs for addresses of this list
+	cfg.DefaultConnections = []string{remote, peerA}
 	cfg.ConnectCallback = func(addr string, id uint64, solicited bool) { o.count("connect-callback") }
 	cfg.DisconnectCallback = func(addr string, id uint64, r gnet.DisconnectReason) { o.count("disconnect-callback") }
 	cfg.ConnectFailureCallback = func(addr string, solicited bool, err error) { o.count("connect-failure-callback") }
@@ -416,6 +419,34 @@ var harnesses = []harness{
 		})
 		e.thread("Shutdown", e.shutdown)
 		e.finish(false)
+	}},
+	{Name: "S10", Desc: "outgoing Connect to a default peer || Disconnect of that peer (then Shutdown)", Overlap2: [2]string{"Connect", "Disconnect"}, Body: func(o *obs) {
+		e := newEnv(o, false)
+		e.run()
+		ln, err := vnet.Listen("tcp", remote)
+		if err != nil {
+			panic(err)
+		}
+		e.background("remote-node", func() {
+			c, err := ln.Accept()
+			if err != nil {
+				return
+			}
+			o.count("remote-accepted")
+			drain(c)
+			c.Close()
+		})
+		vsched.Quiesce()
+		vsched.StartExploring()
+		e.thread("Connect", func() {
+			call(o, "Connect", func() error { return e.pool.Connect(remote) })
+		})
+		e.thread("Disconnect", func() {
+			call(o, "Disconnect", func() error { return e.pool.Disconnect(remote, errors.New("harness disconnect")) })
+		})
+		e.wg.Wait()
+		ln.Close()
+		e.finish(true)
 	}},
 	{Name: "S9", Desc: "Size || GetConnections || Shutdown (Run already accepting, no connection)", Overlap: []string{"Size", "GetConnections"}, Body: func(o *obs) {
 		e := newEnv(o, false)
